@@ -131,7 +131,11 @@ def enumerated_case(i, tier):
 def simplify(case):
     import json
     from sim.core import jdump
-    # try smaller n, real data, simpler patterns, no x0
+    # try a single wrapper, smaller n, real data, simpler patterns, no x0
+    if case.get("nwr", 1) > 1:
+        c = json.loads(jdump(case))
+        c["nwr"] = 1
+        yield c
     if case["n"] > 2:
         c = json.loads(jdump(case))
         c["n"] = case["n"] - 1
@@ -256,8 +260,8 @@ def run(case):
         P[k] = P.get(k, 0) + c
 
     def viol(clause, msg, at, feats=()):
-        res["violations"].append(dict(cls=["C06", clause, f"LDAWrapper[{case['inner']}]"], msg=msg, at=at,
-                                      features=list(feats)))
+        res["violations"].append(dict(cls=["C06", clause], msg=msg, at=at,
+                                      features=list(feats) + [f"inner={case['inner']}", f"cls={case['cls']}"]))
 
     nwr = case.get("nwr", 1)
     W = [None] * nwr
